@@ -16,9 +16,15 @@
 (* queue (memberlist.TransmitLimitedQueue transcribed: tiers by number of   *)
 (* transmissions, inside a tier the largest message that still fits, ties   *)
 (* newest first; a message leaves the queue after TxLimit transmissions),   *)
-(* the bounded queue of oversized messages (Channel.msgc) with the worker   *)
-(* that sends the head to every peer over the reliable channel and waits    *)
-(* for all sends, and the counters dropped / sent / failed.                 *)
+(* and per state key one Channel: the bounded queue of oversized messages   *)
+(* (Channel.msgc), the worker that sends the head to every peer over the    *)
+(* reliable channel and waits for all sends, the counters dropped / sent /  *)
+(* failed.  The environment: gossip packets may be delayed, reordered,      *)
+(* duplicated and lost; nodes stop and (re-)join with or without their      *)
+(* snapshot; membership views lag behind a stop; byte strings from outside  *)
+(* are presented to NotifyMsg and MergeRemoteState.  Scheduler rounds: a    *)
+(* round is one gossip interval (every node gossips once to each peer), a   *)
+(* sweep is complete when every pair of running nodes has done a push/pull. *)
 (*                                                                         *)
 (* Sizes are bytes.  DLen[u] is the length of the marshalled update (the    *)
 (* length-delimited MeshSilence / MeshEntry); the data of a message with    *)
@@ -416,6 +422,8 @@ DeliveredSweep ==
   \A u \in Updates : \A n \in up :
      (born[u].s > 0 /\ born[u].s + 2 <= sweep /\ since[n].s <= born[u].s /\ u \notin orphaned)
         => Has(n, u)
+
+Delivered == DeliveredFast /\ DeliveredSweep
 
 \* Once the transport is quiet every non-delivery is accounted for: a lost
 \* packet (the network's), the dropped counter, the failure counter, a stopped
